@@ -554,6 +554,97 @@ theorem ramp_up_delay_ieee (ramp : Rat) (g total : Nat) (hr : 0 < ramp) (ht : 0 
   have h1 : (ramp != 0) = true := by simpa using ne_of_gt hr
   simp [rampUpWait, h1, Nat.ne_of_gt ht]
 
+/-! ## the schedule is a function of the task's parameters at schedule time; allocations come from the allocator -/
+
+/-- **schedule_uses_params_at_schedule_time.**  Whatever is done to the Task object between loading and scheduling
+    (any sequence of reads of `target_throughput`, rewrites of `target-throughput` / `target-interval`, `--test-mode`): the
+    client's run is the run of the object as it is *then* (`applyOps` = the object after the sequence), and reads leave no trace —
+    the same sequence without its reads gives the same run.  In particular every pacing theorem above
+    (`deterministic_spacing`: gap `w·C/T`) speaks about the `T` the parameters specify at schedule time. -/
+theorem schedule_uses_params_at_schedule_time (c : Cfg) (ops : List TaskOp) (t : TaskP) (tt ti : PVal) (g total : Nat)
+    (inf : Bool) (cap : Nat) (reqs : List Req) (o : TaskObj) (h : applyOps c.r ops ⟨t, tt, ti⟩ = .ok o) :
+    runClientOps c ops t tt ti g total inf cap reqs = runClient c o.t o.tt o.ti g total inf cap reqs ∧
+    runClientOps c (dropReads ops) t tt ti g total inf cap reqs = runClientOps c ops t tt ti g total inf cap reqs := by
+  have h' := applyOps_dropReads c.r ops _ _ h
+  simp [runClientOps, h, h']
+
+/-- **test_mode_throughput.**  `--test-mode` on a throttled task keeps it throttled, in its unit, at `sys.maxsize`: afterwards
+    the parameters specify `9223372036854775807 <unit>`, whatever was read before; an unthrottled task stays unthrottled;
+    iterations are capped at one per client, the warm-up time period is dropped and the time period capped at 10 s. -/
+theorem test_mode_throughput (o o' : TaskObj) (h : testModeLeaf id o = .ok o') :
+    (∀ tp, targetThroughput id o.tt o.ti = .ok (some tp) →
+      targetThroughput id o'.tt o'.ti = .ok (some ⟨9223372036854775807, tp.unit⟩)) ∧
+    (targetThroughput id o.tt o.ti = .ok none → o'.tt = o.tt ∧ o'.ti = o.ti) ∧
+    o'.t.clients = o.t.clients ∧
+    (∀ n, o'.t.iters = some n → n ≤ o.t.clients ∨ o.t.iters = some n) ∧
+    (∀ x, o'.t.warmupT = some x → x ≤ 0) ∧ (∀ x, o'.t.period = some x → x ≤ 10) := by
+  unfold testModeLeaf at h
+  dsimp only at h
+  cases htp : targetThroughput id o.tt o.ti with
+  | error e => rw [htp] at h; cases h
+  | ok r =>
+    rw [htp] at h
+    have hfields : ∀ (t1 : TaskP), t1 = { o.t with
+        warmupIt := o.t.warmupIt.map (fun n => if n > o.t.clients then o.t.clients else n)
+        iters := o.t.iters.map (fun n => if n > o.t.clients then o.t.clients else n)
+        warmupT := o.t.warmupT.map (fun x => if x > 0 then 0 else x)
+        period := o.t.period.map (fun x => if x > 10 then 10 else x) } →
+        t1.clients = o.t.clients ∧ (∀ n, t1.iters = some n → n ≤ o.t.clients ∨ o.t.iters = some n) ∧
+        (∀ x, t1.warmupT = some x → x ≤ 0) ∧ (∀ x, t1.period = some x → x ≤ 10) := by
+      intro t1 ht1
+      subst ht1
+      refine ⟨rfl, ?_, ?_, ?_⟩
+      · intro n hn
+        simp only [Option.map_eq_some_iff] at hn
+        obtain ⟨a, ha, hn⟩ := hn
+        split at hn
+        · left; omega
+        · right; rw [ha, hn]
+      · intro x hx
+        simp only [Option.map_eq_some_iff] at hx
+        obtain ⟨a, _, hx⟩ := hx
+        split at hx
+        · rw [← hx]
+        · rw [← hx]; exact not_lt.mp ‹_›
+      · intro x hx
+        simp only [Option.map_eq_some_iff] at hx
+        obtain ⟨a, _, hx⟩ := hx
+        split at hx
+        · rw [← hx]
+        · rw [← hx]; exact not_lt.mp ‹_›
+    cases r with
+    | none =>
+      injection h with h
+      subst h
+      exact ⟨fun tp htp' => (by cases htp'), fun _ => ⟨rfl, rfl⟩, hfields _ rfl⟩
+    | some tp =>
+      injection h with h
+      subst h
+      refine ⟨?_, fun hn => (by cases hn), hfields _ rfl⟩
+      intro tp' htp'
+      injection htp' with htp'
+      injection htp' with htp'
+      subst htp'
+      obtain ⟨w, hne, hw, hu⟩ := targetThroughput_unit id o.tt o.ti tp htp
+      simp only [hu]
+      exact maxsize_string_parses w hne hw
+
+/-- **allocation_total_is_own_element.**  For every schedule (leaf tasks and parallel structures of any widths, with or without
+    explicit `clients`) every `TaskAllocation` of `Allocator.allocations` is the `g`-th logical client of ONE element `e`
+    (position `g` in the element's sub-tasks × their clients) and carries `total_clients = e.clients`, that element's own
+    client count — so its ramp-up wait is `ramp-up · g / e.clients`, independent of every other element of the schedule. -/
+theorem allocation_total_is_own_element (s : List Alloc.Element) (row : List Alloc.Entry) (hrow : row ∈ Alloc.allocations s)
+    (sub : Alloc.Sub) (i g total : Nat) (h : Alloc.Entry.task sub i g total ∈ row) (ramp : Rat) :
+    ∃ e ∈ s, (Alloc.expand e)[g]? = some (sub, i) ∧ total = e.clients ∧
+      (e.clients ≠ 0 → rampUpWait id (some ramp) g total = .ok (ramp * ((g : Rat) / (e.clients : Rat)))) := by
+  obtain ⟨e, he, h1, h2⟩ := allocation_entry_spec s row hrow sub i g total h
+  refine ⟨e, he, h1, h2, fun hne => ?_⟩
+  subst h2
+  by_cases hr : ramp = 0
+  · simp [rampUpWait, hr]
+  · have : (ramp != 0) = true := by simpa using hr
+    simp [rampUpWait, this, hne]
+
 /-! ## the literal reading of "stops issuing requests once the time period has elapsed"
 
 The code checks the clock *before* it generates parameters and waits for the scheduled slot, so the
@@ -666,6 +757,15 @@ example : demoTime.f.out.endClock - demoTime.c.t0 = 449 / 128 := by decide +kern
 example : (match retarget Dbl.fl 3 .deterministic ⟨100, opsPerS⟩ 1 with
     | .ok s => decide (s.inner = .det (Dbl.fl (1 / Dbl.fl (100 / 3))) ∧ s.inner ≠ .det (3 / 100))
     | .error _ => false) = true := by decide +kernel
+
+/-- `--test-mode` after a read: "4 docs/s" becomes sys.maxsize docs/s, iterations capped at the client count -/
+example : (applyOps id [.readThroughput, .testMode]
+    ⟨{ demoTask with iters := some 100, warmupIt := some 50 }, .str ['4', ' ', 'd', 'o', 'c', 's', '/', 's'], .none⟩).map
+      (fun o => (targetThroughput id o.tt o.ti, o.t.iters, o.t.warmupIt)) =
+    .ok (.ok (some ⟨9223372036854775807, ['d', 'o', 'c', 's', '/', 's']⟩), some 2, some 2) := by decide +kernel
+/-- an 8-client task, then a 2-client task: the second client of the narrower task has total 2 (not 8) -/
+example : pickEntry [⟨none, [⟨0, 8, false, false⟩]⟩, ⟨none, [⟨1, 2, false, false⟩]⟩] 1 3 =
+    some (Alloc.Entry.task ⟨1, 2, false, false⟩ 1 1 2) := by decide +kernel
 
 /-- accepted / rejected throughput strings -/
 example : matchThroughput ['1', '0', ' ', 'd', 'o', 'c', 's', '/', 's'] = some (10, ['d', 'o', 'c', 's', '/', 's']) := by
